@@ -387,6 +387,25 @@ class CallListerVisitor(ast.NodeVisitor):
             self.process_Call(node)
         else:
             self.to_revisit.append((node, self.namespace))
+            self.taint_from_nested_Call(node)
+
+    def taint_from_nested_Call(self, node):
+        # the nested function can run before calls that the enclosing function
+        # makes later: what it does to **kwargs counts from its definition on
+        if isinstance(node.func, ast.Attribute):
+            self.visit_Attribute(node.func)
+        values = [arg for arg in node.args if not isinstance(arg, Starred)]
+        values.extend(kw.value for kw in node.keywords if kw.arg is not None)
+        while values:
+            value = values.pop()
+            if isinstance(value, (ast.List, ast.Tuple, ast.Set)):
+                values.extend(value.elts)
+            elif isinstance(value, ast.Dict):
+                values.extend(v for v in value.values if v is not None)
+            elif isinstance(value, ast.Name):
+                marker = self.namespace.get(value.id)
+                if marker is not None and marker is self.varkwargs:
+                    marker.tainted = node
 
     def __iter__(self):
         return iter(self.calls)
